@@ -545,6 +545,12 @@ func (c *Compiler) compileDefine(
 		return c.error(node, plainError("assignment to iota"))
 	}
 
+	if exists && symbol.Scope != ScopeLocal {
+		// the name is already declared in this scope but not as a local
+		// variable (global); its index is not a local slot.
+		return c.compileAssign(node, symbol, ident)
+	}
+
 	c.emit(node, OpDefineLocal, symbol.Index)
 	symbol.Assigned = true
 	symbol.Constant = keyword == token.Const && ident != "_"
